@@ -19,13 +19,18 @@ LEVEL = "exploration"
 RULE = (
     "maps = all subsets of size 1-2 of a 43-shape rule universe (literal / <conv:name> with optional "
     "in-segment prefix or suffix / optional final <path:name>, 1-2 segments, leaf and branch, '/' itself) "
-    "x method assignments, all size-3 subsets of a reduced universe, (thorough: size 4-6 subsets of three "
-    "structured 6-rule families), each x strict_slashes x merge_slashes x EVERY insertion order; paths = "
-    "every token sequence over per-position tokens derived from the map's own segments (witnesses and "
-    "near-misses of each converter, the literals, a miss token), each with trailing '/', '//', '///', "
-    "doubled / tripled inner slashes and leading '//' when some rule comes near it; methods GET/POST/PUT "
-    "when any rule restricts methods. non-trivial = distinct (rule set, config, path, method) for which "
-    "at least two admissions exist or the outcome is a redirect or 405."
+    "x method assignments, all size-3 subsets of a reduced universe, size 4 (thorough: 4-6) subsets of structured "
+    "6-rule families; plus an extension universe of rule OPTIONS and declaration forms: per-rule strict_slashes / "
+    "merge_slashes overrides, websocket rules, defaults, every rule wrapped in Submount / EndpointPrefix / "
+    "Subdomain / RuleTemplate and nestings (also with the options set), converter argument forms (signed, min/max, "
+    "maxlength, quoted any-items, fixed_digits=3) - each alone and paired with plain base shapes (thorough: also with "
+    "each other); each map x strict_slashes x merge_slashes x EVERY insertion order; paths = every token sequence "
+    "over per-position tokens derived from the map's own segments (witnesses and near-misses of each converter, "
+    "the literals, a miss token), each with trailing '/', '//', '///', doubled / tripled inner slashes, leading "
+    "'//' and a line feed at the end of each segment when some rule comes near it; methods GET/POST/PUT when any "
+    "rule restricts methods; WebSocket and plain requests when any rule is a websocket rule. non-trivial = distinct "
+    "(rule set, config, path, method, request kind) for which at least two admissions exist or the outcome is a "
+    "redirect or 405."
 )
 ASSUMPTIONS = [
     "the adapter's leading-slash normalisation ('/' + path.lstrip('/')) is part of the documented interface",
@@ -38,13 +43,21 @@ ASSUMPTIONS = [
     "merging, or a non-strict branch rule asked without its slash may give 404 or 405 (observed: 404)",
     "a non-strict branch rule asked with ONE extra trailing slash ('/a/' as '/a//') is accepted either way",
     "rules incomparable under the documented order may be resolved by insertion order",
+    "websocket rules are eligible only for WebSocket requests and vice versa (Rule docs); a path admitted only by "
+    "rules for the other kind of request gives WebsocketMismatch (documented) - or 405 when a method also "
+    "mismatches, or 404 when the admission needs a slash redirect / merging (statement silent)",
+    "a rule factory changes exactly what its name says (URL prefix, endpoint prefix, subdomain, template "
+    "substitution) and keeps every other option of the rule",
+    "two rules with the same pattern for the same requests but different options are not generated (the second "
+    "is unreachable; which options apply is undefined)",
     "outside the domain: several path converters, path converter before a non-final segment, '//' in rule "
-    "strings, websocket rules, subdomains / host matching (C04, C12)",
+    "strings, variable subdomains / host matching (C04, C12), custom converters, redirect_to",
 ]
 
+import werkzeug.routing as WR  # noqa: E402
 from werkzeug.exceptions import MethodNotAllowed, NotFound  # noqa: E402
 from werkzeug.routing import Map, Rule  # noqa: E402
-from werkzeug.routing.exceptions import RequestRedirect  # noqa: E402
+from werkzeug.routing.exceptions import RequestRedirect, WebsocketMismatch  # noqa: E402
 
 UU = "12345678-1234-5678-1234-567812345678"
 
@@ -56,6 +69,9 @@ SINGLE = [
     var("int"), var("int(fixed_digits=2)"), var("float"), var("any(a,b)"), var("uuid"),
     var("int", pre="p"), var("string", post="s"),
 ]
+
+
+SINGLE_CONVS = sorted({s[2] for s in SINGLE if s[0] == "var"})
 
 
 def _universe():
@@ -106,6 +122,83 @@ ASSIGN = {
 CONFIGS = [(True, True), (True, False), (False, True), (False, False)]  # (strict, merge)
 
 
+# ------------------------------------------------------------------ extension universe (round 2)
+# Rule *options* and declaration forms the anchored code distinguishes: per-rule strict_slashes / merge_slashes
+# overrides, websocket rules (and WebSocket requests), defaults, rule factories (Submount, EndpointPrefix,
+# Subdomain, RuleTemplate and nestings - they re-create the rule through Rule.empty() / Rule(...)), and further
+# converter argument forms (signed, min/max, maxlength, quoted any-items).
+
+EXT_BASE = ["/a/", "/<string:x>", "/<int:x>/", "/<path:x>/", "/a/<int:x>", "/a", "/<string:x>/", "/<string:y>/b/"]
+EXT_WRAPS = [("submount",), ("endpointprefix",), ("subdomain",), ("template",), ("submount", "submount"),
+             ("endpointprefix", "submount"), ("template", "submount")]
+EXT_OPTS = [dict(strict=True), dict(strict=False), dict(merge=False), dict(websocket=True),
+            dict(defaults={"k": 7})]
+EXT_CONVS = ["int(signed=True)", "int(min=2,max=9)", "string(maxlength=2)", "float(min=1.0,max=9.5)", 'any(a,"b-c")',
+             "int(fixed_digits=3)"]
+
+
+def _ext_universe(nbase):
+    out = []
+    for bs in EXT_BASE[:nbase]:
+        segs, trail = SHAPES[IDX[bs]]
+        for o in EXT_OPTS:
+            out.append(rr.spec(segs, trail, **o))
+        for w in EXT_WRAPS:
+            out.append(rr.spec(segs, trail, wrap=w))
+            for o in EXT_OPTS[1:4]:                     # strict=False, merge=False, websocket=True inside a factory
+                out.append(rr.spec(segs, trail, wrap=w, **o))
+    for c in EXT_CONVS:
+        out.append(rr.spec((var(c),), False))
+        out.append(rr.spec((var(c),), True))
+        out.append(rr.spec((lit("a"), var(c)), False))
+    return out
+
+
+EXT = _ext_universe(len(EXT_BASE))
+_q = _ext_universe(5)
+EXT_QUICK_IDS = [i for i, sp in enumerate(EXT) if sp in _q]      # quick: the first 5 base shapes (subset of thorough)
+
+
+def ext_descriptors(tier):
+    """("ext", (ext index | -1-base index, ...), methods)"""
+    T = tier == "thorough"
+    nb = len(EXT_BASE) if T else 3          # partners of an extension rule: plain base shapes
+    ext_ids = list(range(len(EXT))) if T else EXT_QUICK_IDS
+    for i in ext_ids:
+        yield ("ext", (i,), (None,))
+        if EXT[i]["websocket"] or T:
+            yield ("ext", (i,), (G,))
+    for i in ext_ids:
+        for b in range(nb):
+            if rr.full_rule_string(EXT[i]) == EXT_BASE[b] and not EXT[i]["websocket"]:
+                continue        # the same pattern twice for the same requests: the second rule is unreachable (not a map
+                                # anybody means; which of the two sets of options applies is not defined)
+            yield ("ext", (i, -1 - b), (None, None))
+            if EXT[i]["websocket"] or T:
+                yield ("ext", (i, -1 - b), (G, P))
+                yield ("ext", (i, -1 - b), (None, P))
+    if T:
+        for i, j in itertools.combinations(EXT_QUICK_IDS, 2):
+            if rr.full_rule_string(EXT[i]) == rr.full_rule_string(EXT[j]) and EXT[i]["websocket"] == EXT[j]["websocket"]:
+                continue
+            yield ("ext", (i, j), (None, None))
+
+
+def ext_specs(desc):
+    _tag, ids, methods = desc
+    out = []
+    for k, (i, ms) in enumerate(zip(ids, methods)):
+        if i >= 0:
+            sp = dict(EXT[i])
+        else:
+            segs, trail = SHAPES[IDX[EXT_BASE[-1 - i]]]
+            sp = rr.spec(segs, trail)
+        sp["methods"] = ms
+        sp["endpoint"] = f"e{k}"
+        out.append(sp)
+    return out
+
+
 def map_descriptors(tier):
     """Yield (shape index tuple, methods tuple), simplest first."""
     T = tier == "thorough"
@@ -143,6 +236,7 @@ def units(tier):
     for d in map_descriptors(tier):
         (big if len(d[0]) >= 4 else small).append(d)
     out = [("maps", c) for c in gen.chunked(small, 8 if tier == "quick" else 16)]
+    out += [("maps", c) for c in gen.chunked(ext_descriptors(tier), 8 if tier == "quick" else 16)]
     # a map of k rules has k! insertion orders: split the orders of big maps over several units
     for d in big:
         k = len(d[0])
@@ -155,21 +249,24 @@ def units(tier):
 # ------------------------------------------------------------------ specs / paths
 
 def specs_for(desc):
+    if desc[0] == "ext":
+        return ext_specs(desc)
     shapes, methods = desc
     return [rr.spec(SHAPES[si][0], SHAPES[si][1], methods=ms, endpoint=f"e{k}")
             for k, (si, ms) in enumerate(zip(shapes, methods))]
 
 
 def build_adapter(specs, order, strict, merge):
-    m = Map([Rule(rr.rule_string(specs[k]), **rr.rule_kwargs(specs[k])) for k in order],
-            strict_slashes=strict, merge_slashes=merge)
+    m = Map([rr.to_werkzeug(specs[k], WR) for k in order], strict_slashes=strict, merge_slashes=merge)
     return m.bind("h")
 
 
-def run_impl(ad, p, method):
+def run_impl(ad, p, method, websocket=None):
     try:
-        rule, args = ad.match(p, method=method, return_rule=True)
+        rule, args = ad.match(p, method=method, return_rule=True, websocket=websocket)
         return ("match", rule.endpoint, dict(args))
+    except WebsocketMismatch:
+        return ("wsmismatch",)
     except RequestRedirect as e:
         return ("redir", e.new_url)
     except MethodNotAllowed as e:
@@ -187,7 +284,7 @@ FD_VERDICTS = {"404-but-admitted", "404-should-405", "405-but-admitted", "405-no
                "redirect-unjustified", "redirect-wrong-target"}
 
 
-def fd_late(ref: rr.RefMap, pn: str, method: str, verdict: str, outcome):
+def fd_late(ref: rr.RefMap, pn: str, method: str, verdict: str, outcome, ws=None):
     """Is the violation what NumberConverter's *late* fixed_digits validation produces?
 
     The matcher selects a rule by the converter regex (\\d+) and validates the digit count only after the
@@ -203,7 +300,7 @@ def fd_late(ref: rr.RefMap, pn: str, method: str, verdict: str, outcome):
     if not late or verdict not in FD_VERDICTS:
         return [(a.rule.string, a.kind) for a in late], False
     info = [(a.rule.string, a.kind) for a in late]
-    lex = ref.expect(pn, method, lenient_fixed=True)
+    lex = ref.expect(pn, method, lenient_fixed=True, websocket=ws)
     if rr.judge(lex, outcome) is None:
         return info, True
     if outcome[0] in ("404", "405"):
@@ -218,22 +315,47 @@ def fd_late(ref: rr.RefMap, pn: str, method: str, verdict: str, outcome):
 
 # ------------------------------------------------------------------ unit
 
+def dropped_by_factory(specs):
+    """The specs as werkzeug's rule factories really re-create them at present: Rule.empty() (Submount,
+    Subdomain, EndpointPrefix) forgets merge_slashes and websocket, RuleTemplate additionally alias/host."""
+    out, changed = [], False
+    for sp in specs:
+        if sp.get("wrap") and (sp["merge"] is not None or sp["websocket"]):
+            sp = dict(sp, merge=None, websocket=False)
+            changed = True
+        out.append(sp)
+    return out, changed
+
+
 def check_map(desc, R, tier, orders=None):
     specs = specs_for(desc)
     k = len(specs)
     paths = path_set(specs)
     any_methods = any(sp["methods"] is not None for sp in specs)
     methods = ("GET", "POST", "PUT") if any_methods else ("GET",)
+    # the request's websocket flag matters only if some rule is a websocket rule
+    wsflags = (False, True) if any(sp["websocket"] for sp in specs) else (None,)
     if orders is None:
         orders = list(itertools.permutations(range(k)))
     R.count("maps")
     R.count("paths", len(paths))
-    strings = tuple(rr.rule_string(sp) for sp in specs)
+    strings = tuple(rr.full_rule_string(sp) for sp in specs)
     for sp in specs:
         for s in sp["segs"]:
             R.use("seg:" + (s[0] if s[0] == "lit" else s[2] + ("+affix" if s[1] or s[4] else "")))
         R.use("leaf" if not sp["trail"] else "branch")
         R.use("methods" if sp["methods"] else "anymethod")
+        for w in sp["wrap"]:
+            R.use("wrap:" + w)
+        if len(sp["wrap"]) > 1:
+            R.use("wrap:nested")
+        for opt in ("strict", "merge"):
+            if sp[opt] is not None:
+                R.use(f"rule-{opt}:{sp[opt]}")
+        if sp["websocket"]:
+            R.use("rule-websocket")
+        if sp["defaults"]:
+            R.use("rule-defaults")
     R.use(f"size:{k}")
     local_out: set = set()
     nev = 0
@@ -243,15 +365,16 @@ def check_map(desc, R, tier, orders=None):
         for p in paths:
             pn = rr.normalise_path(p)
             for method in methods:
-                ex = ref.expect(pn, method)
-                note_expectation(R, ex, (strings, desc[1], strict, merge, pn, method))
-                cases.append([p, pn, method, ex, None])
+                for ws in wsflags:
+                    ex = ref.expect(pn, method, websocket=ws)
+                    note_expectation(R, ex, (strings, desc[-1], strict, merge, pn, method, ws))
+                    cases.append([p, pn, method, ex, None, ws])
         for oi, order in enumerate(orders):
             ad = build_adapter(specs, order, strict, merge)
             R.count("bound_maps")
             for case in cases:
-                p, pn, method, ex, first = case
-                out = run_impl(ad, p, method)
+                p, pn, method, ex, first, ws = case
+                out = run_impl(ad, p, method, ws)
                 nev += 1
                 verdict = rr.judge(ex, out)
                 okind = out[0]
@@ -270,26 +393,37 @@ def check_map(desc, R, tier, orders=None):
                         R.count("order_dependent_undecided")
                         R.use("oracle:order-may")
                 if verdict is not None:
-                    info, explains = fd_late(ref, pn, method, verdict, out)
+                    info, explains = fd_late(ref, pn, method, verdict, out, ws)
                     R.violation(
                         "match:" + verdict,
                         {"kind": "route", "rules": specs, "order": list(order), "strict": strict,
-                         "merge": merge, "path": p, "method": method, "outcome": out,
+                         "merge": merge, "path": p, "method": method, "websocket": ws, "outcome": out,
                          "verdict": verdict, "expected": ex.describe(),
                          "rule_strings": [strings[i] for i in order],
-                         "fd_late": info, "fd_explains": explains},
+                         "fd_late": info, "fd_explains": explains,
+                         "factory_explains": factory_explains(specs, strict, merge, pn, method, ws, out)},
                     )
         if k >= 2 and R.counts["maps"] % 41 == 1 and strict and merge:
             for case in cases:
                 if len(case[3].adms) >= 2 and case[4] is not None and case[4][0] != "404":
-                    R.sample({"rules": strings, "methods": desc[1], "strict_slashes": strict, "merge_slashes": merge,
-                              "insertion_orders": len(orders), "path": case[0], "method": case[2],
+                    R.sample({"rules": strings, "methods": desc[-1], "strict_slashes": strict, "merge_slashes": merge,
+                              "insertion_orders": len(orders), "path": case[0], "method": case[2], "websocket": case[5],
                               "observed_first_order": case[4], "allowed": case[3].describe()})
                     break
     R.ev(nev)
     for okind, verdict in local_out:
         R.outcome((okind, verdict))
         R.use("out:" + okind)
+
+
+def factory_explains(specs, strict, merge, pn, method, ws, out):
+    """Is the outcome exactly what the map means once the options a rule factory forgets are dropped?"""
+    alt, changed = dropped_by_factory(specs)
+    if not changed:
+        return False
+    if ws is not None and not any(sp["websocket"] for sp in alt):
+        pass                                   # the request flag still matters: all rules are plain now
+    return rr.judge(rr.RefMap(alt, strict, merge).expect(pn, method, websocket=ws), out) is None
 
 
 def note_expectation(R, ex, key):
@@ -310,6 +444,8 @@ def note_expectation(R, ex, key):
             R.use("oracle:405-or-404-may")
     if len(ex.ok_match) + len(ex.ok_redirect) > 1:
         R.use("oracle:incomparable")
+    if ex.allow_wsm:
+        R.use("oracle:websocket-mismatch")
     if ex.decided:
         R.count("decided")
 
@@ -325,12 +461,15 @@ def run_unit(unit, R, tier):
 
 
 def finalize(R, tier):
-    need = {"out:match", "out:redir-slash", "out:redir-merge", "out:405", "out:404",
+    need = ({"out:match", "out:redir-slash", "out:redir-merge", "out:405", "out:404",
             "adm:X", "adm:L", "adm:R", "adm:M",
             "oracle:may-admission", "oracle:dominated-candidate", "oracle:405-region",
             "oracle:405-or-404-may", "oracle:incomparable", "oracle:order-may",
             "leaf", "branch", "methods", "anymethod", "size:1", "size:2", "size:3", "size:4",
-            "seg:lit", "seg:path"} | {"seg:" + c for c in WITNESS if c != "path"} | {"seg:int+affix", "seg:string+affix"}
+            "seg:lit", "seg:path", "out:wsmismatch", "oracle:websocket-mismatch", "rule-websocket", "rule-defaults",
+            "rule-strict:True", "rule-strict:False", "rule-merge:False", "wrap:nested"}
+            | {"wrap:" + w for w in rr.WRAPPERS} | {"seg:" + c for c in EXT_CONVS}
+            | {"seg:" + c for c in SINGLE_CONVS} | {"seg:int+affix", "seg:string+affix"})
     if tier == "thorough":
         need |= {"size:5", "size:6"}
     missing = need - R.used
@@ -339,8 +478,10 @@ def finalize(R, tier):
     if R.counts["decided"] < 1000:
         raise core.Broken("vacuity: the priority order hardly ever decided")
     return {
-        "bound": ("all maps <=2 of 43 shapes, <=3 of 12, size-4 subsets of 2 families" if tier == "quick" else
-                  "all maps <=2 of 43 shapes, <=3 of 22, size 4-6 subsets of 4 families") + "; every insertion order",
+        "bound": ("all maps <=2 of 43 shapes, <=3 of 12, size-4 subsets of 2 families, 183 extension rules alone and "
+                  "with 3 base shapes" if tier == "quick" else
+                  "all maps <=2 of 43 shapes, <=3 of 22, size 4-6 subsets of 4 families, 282 extension rules alone, "
+                  "with 8 base shapes and (183 of them) with each other") + "; every insertion order",
         "exhaustive": True,
         "explanation": "every (map, config, insertion order, path, method) of the stated grammar was evaluated "
                        "against the reference; nothing sampled",
@@ -357,25 +498,46 @@ def replay(rec):
     ref = rr.RefMap(specs, rec["strict"], rec["merge"])
     ad = build_adapter(specs, order, rec["strict"], rec["merge"])
     pn = rr.normalise_path(rec["path"])
-    ex = ref.expect(pn, rec["method"])
-    out = run_impl(ad, rec["path"], rec["method"])
+    ws = rec.get("websocket")
+    ex = ref.expect(pn, rec["method"], websocket=ws)
+    out = run_impl(ad, rec["path"], rec["method"], ws)
     verdict = rr.judge(ex, out)
-    text = (f"Map([{', '.join(repr(rr.rule_string(specs[i])) + (' ' + str(specs[i]['methods']) if specs[i]['methods'] else '') for i in order)}], "
-            f"strict_slashes={rec['strict']}, merge_slashes={rec['merge']}).bind('h').match({rec['path']!r}, method={rec['method']!r})\n"
+    def show(sp):
+        kw = {k: v for k, v in rr.rule_kwargs(sp).items() if k != "endpoint"}
+        t = f"Rule({rr.rule_string(sp)!r}" + "".join(f", {k}={v!r}" for k, v in kw.items()) + ")"
+        for w in reversed(sp["wrap"]):
+            t = {"submount": "Submount('/pre', [%s])", "endpointprefix": "EndpointPrefix('p.', [%s])",
+                 "subdomain": "Subdomain('', [%s])", "template": "RuleTemplate([%s])()"}[w] % t
+        return t
+    text = (f"Map([{', '.join(show(specs[i]) for i in order)}], "
+            f"strict_slashes={rec['strict']}, merge_slashes={rec['merge']}).bind('h').match({rec['path']!r}, "
+            f"method={rec['method']!r}, websocket={ws!r})\n"
             f"observed = {out}\nallowed  = {ex.describe()}\nverdict  = {verdict}")
     if verdict is None and rec.get("verdict") == "order-dependent-though-decided":
         outs = {}
         for o in itertools.permutations(range(len(specs))):
-            outs[o] = run_impl(build_adapter(specs, o, rec["strict"], rec["merge"]), rec["path"], rec["method"])
+            outs[o] = run_impl(build_adapter(specs, o, rec["strict"], rec["merge"]), rec["path"], rec["method"], ws)
         text += f"\nper insertion order = {outs}"
         return len({repr(v) for v in outs.values()}) > 1, text
     return verdict is not None, text
 
 
+def _late_rules(rec):
+    return [str(x[0]) for x in (rec.get("fd_late") or ())]
+
+
 FINDINGS = {
+    # fixed in /repo (e5e0b74) - kept so that the entry in findings.d has its predicate
     "C03-fixed-digits-late-validation":
         lambda rec: rec.get("kind") == "route" and rec.get("fd_explains") is True
-        and rec.get("verdict") in FD_VERDICTS and len(rec.get("fd_late") or ()) > 0,
+        and rec.get("verdict") in FD_VERDICTS and any("fixed_digits" in r for r in _late_rules(rec)),
+    "C03-number-range-late-validation":
+        lambda rec: rec.get("kind") == "route" and rec.get("fd_explains") is True
+        and rec.get("verdict") in FD_VERDICTS and len(_late_rules(rec)) > 0
+        and all("min=" in r for r in _late_rules(rec)),
+    "C03-factory-drops-rule-options":
+        lambda rec: rec.get("kind") == "route" and rec.get("factory_explains") is True
+        and any(sp.get("wrap") and (sp.get("merge") is False or sp.get("websocket")) for sp in rec.get("rules", ())),
 }
 
 LEVEL_TEXT = (
